@@ -310,6 +310,18 @@ def _decl_chain(rng, doc, want=None):
         return [[rng.choice(gen.KEYS), None]], None
     loc = rng.choice(locs)
     r = rng.random()
+    # an iterator-typed outer attribute: the element documents of a list, reached through the
+    # typed iterator (DocumentIterator), then an attribute declared on the element type
+    its = [c for c in range(len(loc) - 1) if isinstance(node_at(doc, loc[:c]), list) and isinstance(loc[c], int)]
+    if its and rng.random() < 0.3:
+        c = rng.choice(its)
+        outer_steps = [["k", nm] if isinstance(nm, str) else ["i", nm] for nm in loc[:c]] + [["iwc"]]
+        inner = loc[c + 1:]
+        inner_steps = [["k", nm] if isinstance(nm, str) else ["i", nm] for nm in inner]
+        o = ["o", outer_steps, "iter", loc[c]]
+        if len(inner) == 1 and isinstance(inner[0], str) and rng.random() < 0.5:
+            return [o, [inner[0], None]], loc
+        return [o, ["x", inner_steps]], loc
     if len(loc) >= 2 and r < 0.35:
         cut = rng.randint(1, len(loc) - 1)
         outer, inner = loc[:cut], loc[cut:]
